@@ -169,6 +169,23 @@ func seedVariants(prop, verif string) []variant {
 		}
 		out = append(out, variant{Name: "stored seed " + filepath.Base(d), Kill: true, Patch: pf})
 	}
+	// behaviour-preserving changes written by independent sub-agents (benigntool.sh): must stay quiet
+	dirs, _ = filepath.Glob(filepath.Join(verif, "benign", prop+"-*"))
+	for _, d := range dirs {
+		pf := filepath.Join(d, "patch.diff")
+		if _, err := os.Stat(pf); err != nil {
+			continue
+		}
+		if mb, err := os.ReadFile(filepath.Join(d, "meta.json")); err == nil {
+			var meta map[string]interface{}
+			if json.Unmarshal(mb, &meta) == nil {
+				if st, ok := meta["status"].(string); ok && strings.HasPrefix(st, "rejected") {
+					continue
+				}
+			}
+		}
+		out = append(out, variant{Name: "stored refactoring " + filepath.Base(d), Kill: false, Patch: pf})
+	}
 	return out
 }
 
@@ -182,10 +199,17 @@ func overlayFromPatch(repo, patchFile string) (map[string]string, string) {
 		return nil, "patch file unreadable"
 	}
 	var files []string
+	newFiles := map[string]bool{}
+	prev := ""
 	for _, l := range strings.Split(string(pb), "\n") {
 		if strings.HasPrefix(l, "+++ b/") {
-			files = append(files, strings.TrimSpace(strings.TrimPrefix(l, "+++ b/")))
+			f := strings.TrimSpace(strings.TrimPrefix(l, "+++ b/"))
+			files = append(files, f)
+			if strings.HasPrefix(prev, "--- /dev/null") {
+				newFiles[f] = true
+			}
 		}
+		prev = l
 	}
 	if len(files) == 0 {
 		return nil, "no files in patch"
@@ -197,10 +221,13 @@ func overlayFromPatch(repo, patchFile string) (map[string]string, string) {
 	defer os.RemoveAll(tmp)
 	for _, f := range files {
 		b, err := os.ReadFile(filepath.Join(repo, f))
+		os.MkdirAll(filepath.Dir(filepath.Join(tmp, f)), 0o755)
 		if err != nil {
+			if newFiles[f] {
+				continue // created by the patch
+			}
 			return nil, "file absent: " + f
 		}
-		os.MkdirAll(filepath.Dir(filepath.Join(tmp, f)), 0o755)
 		os.WriteFile(filepath.Join(tmp, f), b, 0o644)
 	}
 	cmd := exec.Command("patch", "-p1", "--fuzz=3", "-s", "-N", "-d", tmp, "-i", patchFile)
